@@ -6,7 +6,9 @@
 
 package lua
 
-//@ constglobal loopdetection
+//@ constglobal[C20] loopdetection
+// LFunction.IsG / GFunction are set by the constructors newLFunctionL / newLFunctionG only (checked by a scan of every function)
+//@ immutable[C20] LFunction.IsG LFunction.GFunction
 
 //@ define ReqOK(L *LState) bool = Inv_gfn(L) && IdxOK(L) && L.G.Registry != nil && isStr(arg(L, 1)) && loopdetection != nil && (forall k int :: base(L) <= k && k < top(L) ==> valOK(L.reg.array[k]))
 // what the loader loop needs about the loaders table (an instance of the table invariant) and the host activation
@@ -36,3 +38,65 @@ package lua
 //@ modifies everything
 //@ loop 1 invariant HostOK(L) && LoadersOK(L, loaders) && i >= 1 && top(L) == old(top(L)) && base(L) == old(base(L)) && name == old(str(arg(L, 1))) && loaders != nil && offset(messages) == 0
 //@ loop 1 invariant ncalls() >= old(ncalls()) + 3 && callfn(old(ncalls())) == gfs() && callargLV(old(ncalls()), 1) == old(mkTab(L.G.Registry)) && callargStr(old(ncalls()), 2) == "_LOADED" && callfn(old(ncalls()) + 1) == gfs() && callargLV(old(ncalls()) + 1, 1) == callresLV(old(ncalls()), 0) && callargStr(old(ncalls()) + 1, 2) == name && !truthy(callresLV(old(ncalls()) + 1, 0)) && loaded == callresLV(old(ncalls()), 0)
+
+//@ extern fmt.Sprintf
+//@ noraise
+//@ modifies nothing
+
+// the preload searcher: reads <env>.package.preload[name] (three reads, in that order) and returns that entry when it is not nil,
+// otherwise a message string; it runs nothing and stores nothing
+//@ func loLoaderPreload [C20]
+//@ requires ReqOK(L) && L.currentFrame.Fn != nil
+//@ ensures  "reads-preload": ncalls() == old(ncalls()) + 3 && callfn(old(ncalls())) == gfs() && callargLV(old(ncalls()), 1) == old(mkTab(L.currentFrame.Fn.Env)) && callargStr(old(ncalls()), 2) == "package" && callfn(old(ncalls()) + 1) == gfs() && callargLV(old(ncalls()) + 1, 1) == callresLV(old(ncalls()), 0) && callargStr(old(ncalls()) + 1, 2) == "preload" && callfn(old(ncalls()) + 2) == gfs() && callargLV(old(ncalls()) + 2, 1) == callresLV(old(ncalls()) + 1, 0) && callargStr(old(ncalls()) + 2, 2) == old(str(arg(L, 1)))
+//@ ensures  "returns-entry": result == 1 && top(L) == old(top(L)) + 1 && isTab(callresLV(old(ncalls()) + 1, 0)) && (callresLV(old(ncalls()) + 2, 0) != LNil ==> pushed(L, 0) == callresLV(old(ncalls()) + 2, 0)) && (callresLV(old(ncalls()) + 2, 0) == LNil ==> isStr(pushed(L, 0)))
+//@ modifies everything
+
+// host registration: package.preload[name] is set to a new Go function wrapping exactly the given loader (two reads, one store)
+//@ func (*LState).PreloadModule [C20]
+//@ requires Inv_api(ls) && ls.G != nil && (ls.currentFrame != nil ==> ls.currentFrame.Fn != nil)
+//@ ensures  "registers-loader": ncalls() == old(ncalls()) + 3 && callfn(old(ncalls())) == gfs() && callargStr(old(ncalls()), 2) == "package" && callfn(old(ncalls()) + 1) == gfs() && callargLV(old(ncalls()) + 1, 1) == callresLV(old(ncalls()), 0) && callargStr(old(ncalls()) + 1, 2) == "preload" && callfn(old(ncalls()) + 2) == sfs() && callargLV(old(ncalls()) + 2, 1) == callresLV(old(ncalls()) + 1, 0) && isTab(callresLV(old(ncalls()) + 1, 0)) && callargStr(old(ncalls()) + 2, 2) == name && isFn(callargLV(old(ncalls()) + 2, 3)) && fn(callargLV(old(ncalls()) + 2, 3)).IsG && fn(callargLV(old(ncalls()) + 2, 3)).GFunction == loader
+//@ modifies everything
+
+// FindTable walks / creates the dotted path n below obj with raw accesses (loop over strings.Split: not verified, trusted)
+//@ trusted (*LState).FindTable [C20]
+//@ logged
+//@ ensures  result == LNil || (isTab(result) && Inv_hash(tab(result)))
+//@ ensures  ls.G == old(ls.G) && ls.G.Global == old(ls.G.Global) && HostKept(ls)
+//@ modifies everything
+
+//@ define ftid() int = fnid("(*LState).FindTable")
+
+// host registration of a module: the table found / created under the GLOBAL name is the table stored in _LOADED[name] and returned
+// (unless _LOADED[name] already holds a table, which is then returned and nothing is stored)
+//@ func (*LState).RegisterModule [C20]
+//@ requires Inv_api(ls) && ls.G != nil && ls.G.Registry != nil && ls.G.Global != nil && IdxOK(ls)
+//@ ensures  "looks-up-loaded": ncalls() >= old(ncalls()) + 2 && callfn(old(ncalls())) == ftid() && callargInt(old(ncalls()), 1) == old(ls.G.Registry) && callargStr(old(ncalls()), 2) == "_LOADED" && callfn(old(ncalls()) + 1) == gfs() && callargLV(old(ncalls()) + 1, 1) == callresLV(old(ncalls()), 0) && callargStr(old(ncalls()) + 1, 2) == name
+//@ ensures  "existing-module-returned": isTab(callresLV(old(ncalls()) + 1, 0)) ==> ncalls() == old(ncalls()) + 2 && result == callresLV(old(ncalls()) + 1, 0)
+//@ ensures  "global-and-loaded-same-table": !isTab(callresLV(old(ncalls()) + 1, 0)) ==> ncalls() == old(ncalls()) + 4 && callfn(old(ncalls()) + 2) == ftid() && callargInt(old(ncalls()) + 2, 1) == old(ls.G.Global) && callargStr(old(ncalls()) + 2, 2) == name && callfn(old(ncalls()) + 3) == sfs() && callargLV(old(ncalls()) + 3, 1) == callresLV(old(ncalls()), 0) && callargStr(old(ncalls()) + 3, 2) == name && callargLV(old(ncalls()) + 3, 3) == callresLV(old(ncalls()) + 2, 0) && result == callresLV(old(ncalls()) + 2, 0) && isTab(result)
+//@ ensures  "host-frame-kept": HostFrameKept(ls)
+//@ modifies everything
+//@ loop 1 invariant Inv_hash(newmodtb) && newmodtb != nil && ncalls() == old(ncalls()) + 3 && HostFrameKept(ls) && arrid(newmodtb.keys) != arrid(ls.reg.array)
+
+// "a preload entry takes precedence over the path search": the searcher list that OpenPackage copies into _LOADERS
+// starts with the preload searcher (checked on the package initialiser; the variable and its elements are assigned nowhere else)
+//@ initvalue[C20] loLoaders = loLoaderPreload loLoaderLua
+
+// reads LUA_PATH from the environment and edits the string; no interpreter state involved
+//@ trusted loGetPath [C20]
+//@ noraise
+//@ modifies nothing
+
+//@ func newLTable [C20]
+//@ noraise
+//@ ensures  result != nil && fresh(result) && Inv_arr(result) && Inv_hash(result) && len(result.array) == 0 && result.Metatable == LNil
+//@ modifies nothing
+
+// OpenPackage copies the searcher list, in order, into the table it stores as package.loaders and registry._LOADERS
+//@ func OpenPackage [C20]
+//@ requires ReqOK(L) && L.G.Global != nil && len(loLoaders) < MaxArrayIndex
+//@ assert@`L.SetField(packagemod, "loaders", loaders)` loaders != nil && len(loaders.array) == len(loLoaders) && (forall k int :: 0 <= k && k < len(loLoaders) ==> isFn(loaders.array[k]) && fn(loaders.array[k]).IsG && fn(loaders.array[k]).GFunction == loLoaders[k])
+//@ assert@"loaded := L.NewTable()" callfn(ncalls() - 1) == sfs() && callargLV(ncalls() - 1, 1) == mkTab(L.G.Registry) && callargStr(ncalls() - 1, 2) == "_LOADERS" && callargLV(ncalls() - 1, 3) == mkTab(loaders) && callfn(ncalls() - 2) == sfs() && callargLV(ncalls() - 2, 3) == mkTab(loaders)
+// ... and one new table is stored both as package.loaded and as registry._LOADED (the cache loRequire reads)
+//@ assert@`L.SetField(packagemod, "path"` callfn(ncalls() - 1) == sfs() && callargLV(ncalls() - 1, 1) == mkTab(L.G.Registry) && callargStr(ncalls() - 1, 2) == "_LOADED" && callargLV(ncalls() - 1, 3) == mkTab(loaded) && callfn(ncalls() - 2) == sfs() && callargLV(ncalls() - 2, 1) == packagemod && callargStr(ncalls() - 2, 2) == "loaded" && callargLV(ncalls() - 2, 3) == mkTab(loaded)
+//@ modifies everything
+//@ loop 1 invariant Inv_gfn(L) && len(loLoaders) < MaxArrayIndex && loaders != nil && Inv_arr(loaders) && Inv_hash(loaders) && 0 <= i && i <= len(loLoaders) && len(loaders.array) == i && (forall k int :: 0 <= k && k < i ==> isFn(loaders.array[k]) && allocated(fn(loaders.array[k])) && fn(loaders.array[k]).IsG && fn(loaders.array[k]).GFunction == loLoaders[k])
